@@ -568,10 +568,32 @@ func (m *mon) checkList(idx int, via string, list [][]byte, light bool) {
 		}
 		return
 	}
-	enc = append([]byte{}, enc...) // NewLengthedBytesSlice resets its buffer after returning the slice
+	returned := enc                 // what the caller got: must stay what it is
+	enc = append([]byte{}, enc...) // private copy taken immediately after the call
 	ci := info(via, list, enc)
+	defer func() {
+		// after all the later writes and reads of this and the other workers
+		r.Count("returned_encodings_rechecked", 1)
+		if !bytes.Equal(returned, enc) {
+			cc := ci
+			cc.Got, cc.Want = head(returned), head(enc)
+			r.Violation("NewLengthedBytesSlice:returned-encoding-changed-after-later-calls",
+				fmt.Sprintf("the slice NewLengthedBytesSlice returned for %s no longer holds what it held right after the call", fp), cc)
+		}
+	}()
 	if !bytes.Equal(enc, refEncodeList(list)) {
-		r.Inconclusive(fmt.Sprintf("reference encoding differs from NewLengthedBytesSlice for %s; the monitor's model of the format is wrong", fp))
+		// the format model was validated serially before (selfCheckModel): either the
+		// model is wrong for this list, or the bytes handed out are not this list's encoding
+		got, _, rerr := util.ReadLengthedBytesSlice(enc)
+		if rerr == nil && sameList(got, list) {
+			r.Inconclusive(fmt.Sprintf("reference encoding differs from NewLengthedBytesSlice for %s although it reads back; the monitor's model of the format is wrong", fp))
+			return
+		}
+		cc := ci
+		cc.Got, cc.Want = descList(got, rerr), descList(list, nil)
+		cc.Head = head(enc)
+		r.Violation("NewLengthedBytesSlice:returned-encoding-does-not-read-back",
+			fmt.Sprintf("the bytes NewLengthedBytesSlice returned for %s (copied right after the call, other writers running) read back as %s", fp, cc.Got), cc)
 		return
 	}
 	var wbuf bytes.Buffer
@@ -792,14 +814,222 @@ func (m *mon) checkList(idx int, via string, list [][]byte, light bool) {
 	r.Count("mutations", nflip)
 }
 
+// selfCheckModel: serial, nothing else running; the private copy is taken
+// immediately after each write call. A difference here can only be the
+// monitor's model of the format (or a writer that is wrong on its own).
+func (m *mon) selfCheckModel() bool {
+	r := m.r
+	lists := [][][]byte{nil, {[]byte("a")}, {nil, {1, 2, 3}, {}}, {bytes.Repeat([]byte{0xff}, 300), []byte("xyz")}}
+	for i, l := range lists {
+		ret, err := util.NewLengthedBytesSlice(l)
+		snap := append([]byte{}, ret...)
+		var wb bytes.Buffer
+		err2 := util.WriteLengthedSlice(&wb, l)
+		fw, fb := util.NewBufferBytesFrameWriter()
+		err3 := fw.Header(l...)
+		if err3 == nil {
+			err3 = fw.Lengthed([]byte("it"))
+		}
+		fsnap := append([]byte{}, fb.Bytes()...)
+		ref := refEncodeList(l)
+		fref := refEncodeFrame(frame{Header: l, Items: [][]byte{[]byte("it")}})
+		if err != nil || err2 != nil || err3 != nil || !bytes.Equal(snap, ref) || !bytes.Equal(wb.Bytes(), ref) || !bytes.Equal(fsnap, fref) {
+			r.Inconclusive(fmt.Sprintf("serial self-check #%d: reference encoding differs from the real writers right after the call (errs %v %v %v); the monitor's model of the format is wrong", i, err, err2, err3))
+			return false
+		}
+	}
+	r.Count("model_selfchecks", len(lists))
+	return true
+}
+
+type written struct {
+	list     [][]byte
+	ret      []byte // slice handed out by the writer
+	snap     []byte // private copy taken right after the call
+	via      string // which writer
+	frame    bool
+	lengthed []byte
+}
+
+func deepCopy(m [][]byte) [][]byte {
+	c := make([][]byte, len(m))
+	for i := range m {
+		c[i] = append([]byte{}, m[i]...)
+	}
+	return c
+}
+
+// stabilityRound: several writes in a row before anything is read back; then
+// every handed-out slice must still be what it was and read back to its own
+// list through every reader; what the readers handed out must not change by
+// later reads either.
+func (m *mon) stabilityRound(round int, phase string) {
+	r := m.r
+	rng := r.Rand(29, 5000, round)
+	k := 2 + rng.Intn(4)
+	var ws []written
+	size := rng.Intn(3)
+	kind0 := rng.Intn(2)
+	for i := 0; i < k; i++ {
+		var list [][]byte
+		switch size {
+		case 0: // same shape every time: a reused buffer fits exactly
+			list = genList(r.Rand(29, 5001, round), kind0)
+			for j := range list {
+				if len(list[j]) > 0 {
+					list[j] = append([]byte{}, list[j]...)
+					list[j][0] = byte(i)
+				}
+			}
+			if len(list) == 0 {
+				list = [][]byte{{byte(i)}}
+			}
+		default:
+			list = genList(rng, rng.Intn(2))
+			if len(list) == 0 {
+				list = [][]byte{{byte(i), 7}}
+			}
+		}
+		switch rng.Intn(3) {
+		case 0, 1:
+			ret, err := util.NewLengthedBytesSlice(list)
+			if err != nil {
+				continue
+			}
+			ws = append(ws, written{list: list, ret: ret, snap: append([]byte{}, ret...), via: "NewLengthedBytesSlice"})
+			if rng.Intn(2) == 0 {
+				var wb bytes.Buffer
+				if err := util.WriteLengthedSlice(&wb, list); err == nil {
+					ws = append(ws, written{list: list, ret: wb.Bytes(), snap: append([]byte{}, wb.Bytes()...), via: "WriteLengthedSlice"})
+				}
+			}
+		default:
+			fw, fb := util.NewBufferBytesFrameWriter()
+			it := genItem(rng, 40)
+			if err := fw.Header(list...); err != nil {
+				continue
+			}
+			if err := fw.Lengthed(it); err != nil {
+				continue
+			}
+			ws = append(ws, written{list: list, ret: fb.Bytes(), snap: append([]byte{}, fb.Bytes()...), via: "BytesFrameWriter", frame: true, lengthed: it})
+		}
+	}
+	if len(ws) < 2 {
+		r.Eval(1)
+		return
+	}
+	r.Case(fmt.Sprintf("stab/%s/%d/%d", phase, round, len(ws)))
+	r.Count("interleaved_writes_"+phase, len(ws))
+
+	type held struct {
+		fn   string
+		got  [][]byte
+		copy [][]byte
+		w    int
+	}
+	var helds []held
+	for wi, w := range ws {
+		ci := info("interleaved-"+phase+"-"+w.via, w.list, w.snap)
+		ci.Mutation = fmt.Sprintf("write #%d of %d in a row, read back after all of them", wi+1, len(ws))
+		var ref []byte
+		if w.frame {
+			ref = refEncodeFrame(frame{Header: w.list, Items: [][]byte{w.lengthed}})
+		} else {
+			ref = refEncodeList(w.list)
+		}
+		if !bytes.Equal(w.snap, ref) {
+			ci.Head = head(w.snap)
+			r.Violation(w.via+":returned-encoding-is-not-the-list-written", fmt.Sprintf("%s: the bytes copied right after the call are not the encoding of the list written (format model validated serially before)", w.via), ci)
+			continue
+		}
+		if !bytes.Equal(w.ret, w.snap) {
+			ci.Got, ci.Want = head(w.ret), head(w.snap)
+			r.Violation(w.via+":returned-encoding-changed-after-later-calls",
+				fmt.Sprintf("%s: the slice handed out for write #%d of %d no longer holds what it held right after the call", w.via, wi+1, len(ws)), ci)
+			// keep going: the read back shows the consequence
+		}
+		// read the handed-out slice itself, as its owner would
+		bad := func(fn string, got [][]byte, err error) {
+			ci.Got, ci.Want = descList(got, err), descList(w.list, nil)
+			ci.Head = head(w.ret)
+			r.Violation(fn+":earlier-written-list-reads-back-different-after-later-writes",
+				fmt.Sprintf("%s of the list written by %s as #%d of %d writes in a row: %s, written %s", fn, w.via, wi+1, len(ws), ci.Got, ci.Want), ci)
+		}
+		r.Guard("stability-readback", ci, func() {
+			if !w.frame {
+				got, _, err := util.ReadLengthedBytesSlice(w.ret)
+				if err != nil || !sameList(got, w.list) {
+					bad("ReadLengthedBytesSlice", got, err)
+					return
+				}
+				helds = append(helds, held{"ReadLengthedBytesSlice", got, deepCopy(got), wi})
+				c := allChunkings[rng.Intn(len(allChunkings))]
+				_, got2, err := util.ReadLengthedSlice(&chunkReader{data: w.ret, c: c, rng: rng})
+				if err != nil || !sameList(got2, w.list) {
+					bad("ReadLengthedSlice", got2, err)
+					return
+				}
+				helds = append(helds, held{"ReadLengthedSlice", got2, deepCopy(got2), wi})
+			} else {
+				c := allChunkings[rng.Intn(len(allChunkings))]
+				fr, err := util.NewBytesFrameReader(&chunkReader{data: w.ret, c: c, rng: rng})
+				if err != nil {
+					bad("NewBytesFrameReader", nil, err)
+					return
+				}
+				hdr, err := fr.Header()
+				if err != nil || !sameList(hdr, w.list) {
+					bad("BytesFrameReader.Header", hdr, err)
+					return
+				}
+				var item []byte
+				err = fr.Lengthed(func(b []byte) error { item = b; return nil })
+				if err != nil || !bytes.Equal(item, w.lengthed) {
+					bad("BytesFrameReader.Lengthed", [][]byte{item}, err)
+					return
+				}
+				hdr = append(hdr, item)
+				helds = append(helds, held{"BytesFrameReader", hdr, deepCopy(hdr), wi})
+			}
+			r.Count("interleaved_read_back_ok", 1)
+		})
+	}
+	// what the readers handed out must have survived the later reads
+	for _, h := range helds {
+		r.Count("reader_results_rechecked", 1)
+		if !sameList(h.got, h.copy) {
+			ci := info("interleaved-"+phase, ws[h.w].list, ws[h.w].snap)
+			ci.Got, ci.Want = descList(h.got, nil), descList(h.copy, nil)
+			r.Violation(h.fn+":returned-items-changed-after-later-reads", fmt.Sprintf("items returned by %s changed while other inputs were read", h.fn), ci)
+		}
+	}
+}
+
 func TestC29(t *testing.T) {
 	r := vlib.Start(t, "C29", vlib.LevelExploration)
 	defer r.Finish()
-	r.SetRule("case = one PRNG list of byte strings written by the real NewLengthedBytesSlice/WriteLengthedSlice/BytesFrameWriter and read back by ReadLengthedBytesSlice (buffer, with and without tail), ReadLengthedSlice and BytesFrameReader (Header, Lengthed, Body) over 11 chunkings (whole, 1, 2, 7, random, (n,EOF) together, (0,nil) reads); plus every strict prefix (<=300 bytes; sampled above), byte flips and replaced length prefixes (0, +-1, 32767, 32768, 2^31, 2^63, 2^64-1 ...) judged against an independent strict decoder of exactly the bytes given. distinct = (item count, hash of item lengths[, cut position | mutation]); non-trivial = list not empty")
+	r.SetRule("case = one PRNG list of byte strings written by the real NewLengthedBytesSlice/WriteLengthedSlice/BytesFrameWriter and read back by ReadLengthedBytesSlice (buffer, with and without tail), ReadLengthedSlice and BytesFrameReader (Header, Lengthed, Body) over 11 chunkings (whole, 1, 2, 7, random, (n,EOF) together, (0,nil) reads); plus every strict prefix (<=300 bytes; sampled above), byte flips and replaced length prefixes (0, +-1, 32767, 32768, 2^31, 2^63, 2^64-1 ...) judged against an independent strict decoder of exactly the bytes given. plus rounds of 2..5 writes in a row (serial and from 2..4 goroutines) whose handed-out slices are re-compared and read back only afterwards. distinct = (item count, hash of item lengths[, cut position | mutation]) or (phase, round); non-trivial = list not empty")
 	r.Assume("a read error is accepted for well-formed hostile input only beyond the readers' documented limits (count > 32767, item > 2^31-1); for lists the real writer produced no error is accepted")
 	r.Assume("a write that returns an error wrote nothing that must read back")
+	r.Assume("the byte slice a writer hands out belongs to the caller: it must still hold the list after any number of later writes and reads, also from other goroutines; the format model is compared with the real writers serially, on a copy taken right after the call, before anything else runs")
 	r.Assume("raw Body bytes are not length-prefixed: truncation inside them is not detectable and is not demanded")
 	m := &mon{r: r}
+
+	if !m.selfCheckModel() {
+		return
+	}
+	// several writes in a row before any read back: serial, then from 2..4 goroutines
+	nStab := r.N(400, 6000)
+	for i := 0; i < nStab; i++ {
+		m.stabilityRound(i, "serial")
+	}
+	for _, workers := range []int{2, 3, 4} {
+		w := workers
+		vlib.Parallel(nStab/2, w, func(i int) {
+			r.Guard("stabilityRound", i, func() { m.stabilityRound(100000*w+i, fmt.Sprintf("goroutines%d", w)) })
+		})
+	}
 
 	type job struct {
 		idx   int
